@@ -44,3 +44,8 @@ pub fn check_low(c: char) -> bool {
     hook_yield("check_low");
     c != 'q'
 }
+
+pub fn check_caps(s: &Caps) -> bool {
+    hook_yield("check_caps");
+    !s.contains('X')
+}
